@@ -436,6 +436,9 @@ class Analyzer:
             if ix.get('k') == 'ref' and ((kind, key, c), ix['d']) in st.acc:
                 ok = True
                 why = 'guarded: (%s) + %s < length established for this value of %s' % (term, ix['n'], ix['n'])
+            elif ix.get('k') == 'ref' and kind == 'ptr' and bkey is not None and c == 0 and (('cur', bkey, 0), ix['d']) in st.acc:
+                ok = True
+                why = 'guarded: %s is the cursor of %s, and cursor + %s < length is established for this value of %s' % (key, bkey, ix['n'], ix['n'])
             elif below and iv[0] >= 0:
                 ok = True
                 why = 'index below a count of bytes that was shown to be readable at %s' % term
@@ -997,7 +1000,7 @@ class Analyzer:
                           'at most %s bytes incl. terminator' % (total + 1 if total is not None else 'unbounded'),
                           'sprintf:%s:%s' % (name, expr_str(fmt)[:30] if fmt else '?'))
         # effects on the state
-        post = POSTCONDITIONS.get(cn)
+        post = POSTCONDITIONS.get(cn) or (self.reqs.get('@post') or {}).get(cn)
         for i, a in enumerate(args):
             a0 = strip_casts(a)
             b = self.buf_key(a0)
@@ -1800,23 +1803,49 @@ def _check_returns_arg(u, R):
              key='summary-returns-arg')
 
 
+def _postcondition_holds(u, fn, post, reqs):
+    pname = fn.params[post['param']]['n']
+    an = Analyzer(u, fn, {pname: post['pre']}, reqs)
+    an.run()
+    ok = True
+    worst = POS
+    for r in an.cfg.returns():
+        st = an.states.get(r.id)
+        if st is None:
+            continue
+        st2 = an.transfer(r, st)
+        lo = st2.buf.get(pname, TOP)[0]
+        worst = min(worst, lo)
+        if lo < post['post']:
+            ok = False
+    return ok, worst
+
+
+def _derive_postconditions(u, fam, reqs):
+    """Other functions that return their buffer argument and keep a readable byte when entered with one (skip_utf8_bom): the
+    same statement as the named postcondition, proved here on every run and used only when proved."""
+    rec = _parse_buffer_record(u)
+    out = {}
+    for fn in fam:
+        if fn.name in POSTCONDITIONS or fn.name not in RETURNS_ARG or fn.name == PUBLIC_ENTRY:
+            continue
+        cps = [c for c in _cursor_params(u, fn, rec) if c[2] == 'buf']
+        if len(cps) != 1 or cps[0][0] != 0:
+            continue
+        post = {'param': 0, 'pre': 1, 'post': 1}
+        try:
+            ok, _w = _postcondition_holds(u, fn, post, reqs)
+        except AnalysisBroken:
+            ok = False
+        if ok:
+            out[fn.name] = post
+    return out
+
+
 def _check_postconditions(u, reqs, R):
     for name, post in POSTCONDITIONS.items():
         fn = u.fn(name)
-        pname = fn.params[post['param']]['n']
-        an = Analyzer(u, fn, {pname: post['pre']}, reqs)
-        an.run()
-        ok = True
-        worst = POS
-        for r in an.cfg.returns():
-            st = an.states.get(r.id)
-            if st is None:
-                continue
-            st2 = an.transfer(r, st)
-            lo = st2.buf.get(pname, TOP)[0]
-            worst = min(worst, lo)
-            if lo < post['post']:
-                ok = False
+        ok, worst = _postcondition_holds(u, fn, post, reqs)
         R.ob('BND1', fn, None, 'summary: %s keeps at least %d readable byte(s) when entered with %d' % (name, post['post'], post['pre']),
              ok, 'at every return avail >= %s' % (worst if worst > NEG else 'nothing'), key='summary-post')
 
@@ -1829,6 +1858,7 @@ def bnd_parse(units, R):
     rec = _parse_buffer_record(u)
     _check_returns_arg(u, R)
     _check_postconditions(u, reqs, R)
+    reqs['@post'] = _derive_postconditions(u, fam, reqs)
     nreads = 0
     unmodelled = []
     for fn in fam:
